@@ -76,10 +76,32 @@ class AttachWorld(World):
         self._next_sid += 1
         return sid
 
-    def new_stream(self, kind, target, src, purpose="USER"):
+    def _stream_report(self, s, status, extra=()):
+        self._describing = s
+        try:
+            return World._stream_report(self, s, status, extra)
+        finally:
+            self._describing = None
+
+    def _conn_desc(self):
+        """As World._conn_desc, preceded by the SOCKS authentication of the connection when it has one
+        (entry_connection_describe_status_for_controller: SOCKS_USERNAME / SOCKS_PASSWORD as QuotedStrings)."""
+        base = World._conn_desc(self)
+        auth = getattr(getattr(self, "_describing", None), "socks_auth", None)
+        if not base or not auth:
+            return base
+        pairs = [("SOCKS_USERNAME", auth[0])]
+        if auth[1] is not None:
+            pairs.append(("SOCKS_PASSWORD", auth[1]))
+        return pairs + base
+
+    def new_stream(self, kind, target, src, purpose="USER", socks_auth=None):
+        """``socks_auth`` = (quoted username, quoted password | None), printed on every event of the stream by a
+        modern tor."""
         if len(self.streams) >= MAX_LIVE_STREAMS:
             return None
         s = StreamM(self._fresh_sid(), self._next_inc())
+        s.socks_auth = socks_auth
         s.kind = kind
         s.target = target
         s.src = src
